@@ -54,15 +54,17 @@ CHECKS["C17"] = dict(
     technique="TLA+ persistence model + durability rule (Durable.tla) evaluated by TLC at every crash point of "
               "system-call logs recorded with strace from a real process (DurableTrace.tla); implementation-shaped "
               "model DurableImpl.tla model-checked; DurableConc.tla (concurrent setters: critical section of update_file, write jobs, refused "
-              "writes; group durability, liveness) model-checked and bound by barrier-released real threads under strace -f; crash images "
+              "writes; group durability, liveness) model-checked and bound by barrier-released real threads under strace -f; rename and "
+              "directory sync in the model; traces of a process killed inside a set (strace injection) followed by a second process; crash images "
               "computed by TLC materialised and recovered by the real store",
     category="fault_enumeration",
     text="Every prefix of the real system-call log (mkdir/open-truncate/write/fsync/close) of every set in several "
          "sequences is a crash point; at each TLC evaluates the rule over all allowed losses of unsynced data (none, all, "
          "every byte prefix); sampled crash images are written to disk and opened by a fresh real KeyValueStorage.",
     note="Assumes fsync(fd) also persists the directory entry (and directories created for the key). Trusted: strace's "
-         "completion order, TLC, the mapping of written bytes to value prefixes. rename-based writers are not modelled "
-         "(the check then stops with a machinery failure, not an alarm).",
+         "completion order, TLC, the mapping of written bytes to value prefixes. A rename is atomic but durable only after a sync of its directory; "
+         "unlink / truncate on the store directory are not modelled (the check then stops with a machinery failure, not an alarm). "
+         "Concurrent setters and killed-then-retried sets go beyond the sequential quantifier of the property.",
     design_ref="DESIGN.md section 5 C17")
 
 CHECKS["C19"] = dict(
